@@ -473,7 +473,7 @@ func mutate(r *hlib.Rand, p *HP, t *truth, run *run) (string, func(h *tmclient.H
 	none := func(h *tmclient.Header) {}
 	short := func(b []byte) []byte { return b[:len(b)-1] }
 	for {
-		switch r.Intn(46) {
+		switch r.Intn(47) {
 		case 0:
 			p.ChainID = "otherchain"
 			return "mut-chain-other", none
@@ -662,6 +662,11 @@ func mutate(r *hlib.Rand, p *HP, t *truth, run *run) (string, func(h *tmclient.H
 		case 45:
 			p.ChainID = "overflow-99999999999999999999999"
 			return "mut-chain-revision-overflow", none
+		case 46: // the same chain in its NEXT revision (well formed): updates must stay within the trusted height's revision
+			if clienttypes.IsRevisionFormat(t.chainID) {
+				p.ChainID, _ = clienttypes.SetRevisionNumber(t.chainID, t.rev+1)
+				return "mut-chain-next-revision", none
+			}
 		}
 	}
 }
